@@ -75,16 +75,16 @@ var images = map[string]imageClass{
 	"twomanifests":  {Name: "twomanifests", Files: with(objs("a"), map[string]string{"manifest.yaml": baseManifest.YAML(), "manifest.yml": baseManifest.YAML()}), Invalid: "load"},
 	"badyaml":       {Name: "badyaml", Files: with(objs("a"), map[string]string{"manifest.yaml": baseManifest.YAML(), "z.yaml": "kind: [unclosed\n"}), Invalid: "object"},
 	"nophase":       {Name: "nophase", Files: with(objs("a"), map[string]string{"manifest.yaml": baseManifest.YAML(), "z.yaml": pkgw.WidgetYAML("Widget", "z", "", "1", map[string]string{"note": "no phase"})}), Invalid: "object"},
-	"dupfiles": {Name: "dupfiles", Files: with(objs("a"), map[string]string{"manifest.yaml": baseManifest.YAML(), "sub/again.yaml": pkgw.WidgetYAML("Widget", "a", "p2", "2", nil)}), Invalid: "object"},
-	"dupdocs":  {Name: "dupdocs", Files: with(objs("a"), map[string]string{"manifest.yaml": baseManifest.YAML(), "two.yaml": pkgw.WidgetYAML("Widget", "q", "p1", "1", nil) + "---\n" + pkgw.WidgetYAML("Widget", "q", "p2", "1", nil)}), Invalid: "object"},
+	"dupfiles":      {Name: "dupfiles", Files: with(objs("a"), map[string]string{"manifest.yaml": baseManifest.YAML(), "sub/again.yaml": pkgw.WidgetYAML("Widget", "a", "p2", "2", nil)}), Invalid: "object"},
+	"dupdocs":       {Name: "dupdocs", Files: with(objs("a"), map[string]string{"manifest.yaml": baseManifest.YAML(), "two.yaml": pkgw.WidgetYAML("Widget", "q", "p1", "1", nil) + "---\n" + pkgw.WidgetYAML("Widget", "q", "p2", "1", nil)}), Invalid: "object"},
 	"openshiftonly": {Name: "openshiftonly", Files: with(objs("a", "b"), map[string]string{"manifest.yaml": manifestWith("  - platform: [OpenShift]\n")}), Invalid: "constraint-platform"},
 	"k8s130":        {Name: "k8s130", Files: with(objs("a", "b"), map[string]string{"manifest.yaml": manifestWith("  - platformVersion:\n      name: Kubernetes\n      range: \">=1.30.0\"\n")}), Invalid: "constraint-version"},
 	// phases beyond the 1 MiB chunk limit: the deployer spreads them over ObjectSlices
 	"big":  {Name: "big", Files: with(objs("a", "c"), map[string]string{"manifest.yaml": baseManifest.YAML(), "b.yaml": bigWidget("b1", 400<<10) + "---\n" + bigWidget("b2", 400<<10) + "---\n" + bigWidget("b3", 400<<10), "z.yaml": pkgw.WidgetYAML("Widget", "z", "p1", "1", nil)})},
 	"big2": {Name: "big2", Files: with(objs("a", "c"), map[string]string{"manifest.yaml": baseManifest.YAML(), "b.yaml": bigWidget("b1", 300<<10) + "---\n" + bigWidget("b2", 500<<10) + "---\n" + bigWidget("b4", 300<<10) + "---\n" + bigWidget("b5", 300<<10) + "---\n" + bigWidget("b6", 300<<10)})},
 	// small, small, one object beyond the limit on its own, small
-	"huge":          {Name: "huge", Files: with(objs("a"), map[string]string{"manifest.yaml": baseManifest.YAML(), "b.yaml": bigWidget("b1", 10<<10) + "---\n" + bigWidget("b2", 20<<10) + "---\n" + bigWidget("b3", 1<<20) + "---\n" + bigWidget("b4", 10<<10)})},
-	"unique":        {Name: "unique", Files: with(objs("a", "b"), map[string]string{"manifest.yaml": manifestWith("  - uniqueInScope: {}\n")}), Invalid: "constraint-unique"},
+	"huge":   {Name: "huge", Files: with(objs("a"), map[string]string{"manifest.yaml": baseManifest.YAML(), "b.yaml": bigWidget("b1", 10<<10) + "---\n" + bigWidget("b2", 20<<10) + "---\n" + bigWidget("b3", 1<<20) + "---\n" + bigWidget("b4", 10<<10)})},
+	"unique": {Name: "unique", Files: with(objs("a", "b"), map[string]string{"manifest.yaml": manifestWith("  - uniqueInScope: {}\n")}), Invalid: "constraint-unique"},
 }
 
 // constraint grammar: one manifest constraint entry = optional platform list x optional platform
